@@ -25,6 +25,16 @@
      (identifier and payload search guided by the negative response codes); the coverage table (positive answers per
      parameter set x handler x sub-function, recomputed from the live code on every run) is part of the evidence and a
      target without a positive answer is reported as a broken tie.
+(A)  AST obligations for the request handlers (gen/c16_handlers.py -> Gen/C16Handlers.lean, theorem handler_rng_sources_agree, and
+     again in the harness with the handler named): for every handler reachable from respond_after_default the RNG objects it
+     creates and the expressions that seed them, the global names / server attributes it reads, the methods it calls on the
+     RNG objects; the source of stateful_rng and of class RNG.
+(H)  handler layer (harness/c16_htie.py): RNG is replaced by a recording subclass of itself; every call of
+     respond_after_default / update_state on the histories of (C2) and on direct handler calls (all handlers x sessions x
+     pending security-access states x requests whose bytes exercise str(bytes)) is replayed through Model/VEcuRng.lean with the
+     recorded results as oracle: same answer bytes, same state after, same seed texts in the same order, same kinds of calls on
+     every RNG object; the process-global random state is compared before / after every handler call; str(bytes) of the
+     interpreter against pyBytesRepr.
 """
 import json
 import os
@@ -38,9 +48,10 @@ from common import PY, REPO, setup_repo_import
 
 import c16_transcript as T
 import c16_pyset as PS
+import c16_htie as HT
 
 ID = "C16"
-GENS = ["c16_tables"]
+GENS = ["c16_tables", "c16_handlers"]
 PROOF = "Gallia.Proofs.C16"
 DRIVER = "c16"
 ORACLE = False
@@ -57,10 +68,20 @@ ASSUMPTIONS = [
     "the two iterated sets of randomize (level_sessions, next_level_sessions) are modelled as PySets; "
     "session_transitions[i] is only measured (len), extended and sorted, and is kept as a sorted list",
     "random.Random (Mersenne Twister) seeded with a str is a function of that str; floats compared with libm pow on both sides",
-    "a theorem cannot see another process: that randomize has no input besides (arguments, draw stream, choice stream) is a "
-    "theorem about the model; that the code consults nothing else (request handlers, argument parsing, module state) is "
-    "carried by the draw replay and the cross-process transcript comparison over the listed environments "
-    "(PYTHONHASHSEED, import order, clock base, state of the global random module, order of construction)",
+    "a theorem cannot see another process: that randomize and the request handlers have no input besides (arguments, seeded "
+    "streams, session state, request) is a theorem about the models (Model/Randomize, Model/VEcuRng); that the code consults "
+    "nothing else is carried (a) for the handlers by the AST obligation (RNG objects, seed expressions, free names, draw calls per "
+    "handler; source of stateful_rng / RNG) and the recorded-draw replay of every handler call (seed text, kinds of calls, answer "
+    "bytes, state after; global random state untouched), (b) for argument parsing and module state by the cross-process "
+    "transcript comparison over the listed environments (PYTHONHASHSEED, import order, clock base, state of the global random "
+    "module, order of construction)",
+    "handler layer: requests enter the model parsed (C01 models the parser); the default-response chain in front of the handlers "
+    "is a parameter of the model (a function of offered services, session, request: C13 / C14 model it); the inactivity reset of "
+    "UDSServerTransport.handle_request (reads the clock) is outside the model - the transcripts keep the clock below the timeout; "
+    "`security_access_level` is written by update_state and read by no handler, so it is not part of the model state",
+    "handler layer: the values a seeded random.Random returns are an oracle (rngOf : seed text -> results of the calls made so "
+    "far); an unseeded RNG() (security-access seeds) is a separate fresh stream, different in every process by design; floats "
+    "enter as IEEE-754 bit patterns and are compared / rounded (<= p, int(x + 0.5)) in Lean Float exactly as in CPython",
     "model-directed transcripts: the requests are found by asking a second in-process instance of the same virtual ECU; only the "
     "requests go into the history, the answers compared are those of the separately started ECUs. Every handler x sub-function "
     "is reached in some model of the searched seeds (ECUReset 0x01..0x7F, SecurityAccess 0x01..0x7E, RoutineControl 1..3, "
@@ -1161,6 +1182,7 @@ def check_c2(ctx, impl, c1_cases, c1_results, cli_cases=()):
                          impl=b["answers"][i], model=a["answers"][i], spec_violated=True, site="RandomUDSServer.respond")
     ctx.sample({"c2_config": {"seed": cfgs[0]["seed"], "params": cfgs[0]["params"], "history_head": cfgs[0]["history"][:12]},
                 "answers_head": ref["runs"][0].get("answers", [])[:12]})
+    return cfgs
 
 
 # ------------------------------------------------------------------------------------------------------------
@@ -1377,7 +1399,9 @@ def run(ctx, with_pyset=True):
             ctx.disagree("c2:model-differs:in-process", "two servers with the same seed and arguments differ within one process",
                          {"kind": "c1", "seed": c["seed"], "params": c["params"], "script": None}, impl=r2.get("dump"), model=r["dump"],
                          spec_violated=True, site="RandomUDSServer.randomize")
-    check_c2(ctx, impl, cases, results, cli_cases)
+    cfgs = check_c2(ctx, impl, cases, results, cli_cases)
+    # handler layer: AST obligations + recorded draws of every handler call against Model/VEcuRng.lean
+    HT.check_handlers(ctx, impl.S, impl.base_rng, cfgs or [])
 
 
 def replay(ctx, case):
@@ -1385,6 +1409,8 @@ def replay(ctx, case):
     if c.get("kind") == "pyset":
         return replay_pyset(ctx, c)
     impl = Impl()
+    if c.get("kind") in ("handler", "ast", "repr"):
+        return HT.replay(ctx, impl.S, impl.base_rng, c)
     if c.get("kind") == "c2":
         cfgs = c.get("configs", [])
         env = c["env"]
@@ -1444,16 +1470,36 @@ MANIFEST = {
                    "amounts, plus two states inside the checking process), arguments given as values and as command-line text, "
                    "security-access seeds masked; the histories are random and model-directed (seed search per parameter set until "
                    "every handler x sub-function of the virtual ECU is offered by some model, then a request with a positive answer "
-                   "found by probing the live code; coverage table in the evidence)."),
+                   "found by probing the live code; coverage table in the evidence). (3) a model of the per-request RNG discipline "
+                   "and of every request handler of RandomUDSServer (Model/VEcuRng.lean): the seed text of stateful_rng / "
+                   "add_seeds (server seed, session, str() of the request fields incl. CPython's str(bytes)), the calls each handler "
+                   "makes on its RNG objects, the answer built from the results, the pending security-access answer and "
+                   "update_state; theorems for every server, oracle, state and history: two virtual ECUs with the same seed and "
+                   "arguments whose seeded generators agree answer the same SendKey-free history and the next request identically up "
+                   "to the bytes of security-access seeds, whatever the fresh and ambient streams are "
+                   "(answer_function_of_seed_state_request, transcript_function_of_seed); every answer except SendKey's sees the "
+                   "history through the current session only (answer_independent_of_other_requests_partial, "
+                   "answer_independent_of_history_partial); SendKey's answer is a function of session, pending seed and request and "
+                   "looks at no stream (sendKey_answer_function_of_pending_seed); no answer, state or draw of any history depends on "
+                   "the ambient stream handed to the handlers (global_random_irrelevant); the seed texts of a handler call are a prefix of a "
+                   "list computed from server seed, session and request alone, and the call reads the seeded oracle at those texts only "
+                   "(seed_texts_function_of_seed_session_request, handler_reads_seeded_streams_of_request_only). Tied by (A) the regenerated AST table of "
+                   "RNG objects / seed expressions / free names / draw calls per handler and the source of stateful_rng / RNG "
+                   "(handler_rng_sources_agree) and (H) the replay of every recorded handler call (seed texts, kinds of calls, "
+                   "answer bytes, state after) through the model."),
     "level_note": ("Trusted: Lean kernel (axioms propext, Quot.sound, Classical.choice), the generated tables, the harness, CPython's "
                    "random.Random, libm pow; the set model is a transcription validated against the running interpreter, not derived "
-                   "from the C source. Partial: a theorem cannot see another process - that the code consults nothing but seed and "
-                   "arguments outside randomize (request handlers, argument parsing) is a differential check over the listed "
-                   "environments; reachability assumes DiagnosticSessionControl among the mandatory services and session ids below "
+                   "from the C source. Partial: a theorem cannot see another process - that the request handlers consult nothing but "
+                   "seed, session state and request is a theorem about Model/VEcuRng tied to the code by the AST obligation and the "
+                   "recorded-draw replay (Mersenne Twister is an oracle: a function of the seed text); that argument parsing and module "
+                   "state add nothing is a differential check over the listed environments; the default chain in front of the handlers "
+                   "is a parameter (C13/C14), the transport's inactivity timer is outside the handler model; reachability assumes DiagnosticSessionControl among the mandatory services and session ids below "
                    "0x7F; set elements below 2^61-1."),
     "technique": ("Lean 4 proof (full-period lemma, probe-loop invariants, simulation of the set-order-free model by the oracle model, "
                   "invariants over folds, well-founded level loop) + differential test of the set model + recorded-draw replay "
                   "without recorded order + cross-process transcript comparison incl. the command-line path, model-directed "
-                  "request histories and differing global-random states"),
+                  "request histories and differing global-random states + handler model over a seed-text oracle, relational induction over "
+                  "histories (states related up to fresh seed bytes), regenerated AST tables of RNG sources, recorded-draw replay of "
+                  "every handler call"),
     "design_ref": "DESIGN.md section 7, C16",
 }
